@@ -126,6 +126,12 @@ impl<H: Hasher> BatchMerkleProof<H> {
             return Err(MerkleTreeError::TooManyLeafIndexes(MAX_PATHS, indexes.len()));
         }
 
+        // the proof must be for a tree whose leaf indexes fit into usize, and must carry exactly
+        // one leaf per index
+        if self.depth as u32 >= usize::BITS || self.leaves.len() != indexes.len() {
+            return Err(MerkleTreeError::InvalidProof);
+        }
+
         let mut buf = [H::Digest::default(); 2];
         let mut v = BTreeMap::new();
 
@@ -242,6 +248,12 @@ impl<H: Hasher> BatchMerkleProof<H> {
                 i += 1;
             }
         }
+
+        // every node of the proof must have been used
+        if proof_pointers.iter().zip(self.nodes.iter()).any(|(&used, nodes)| used != nodes.len()) {
+            return Err(MerkleTreeError::InvalidProof);
+        }
+
         v.remove(&1).ok_or(MerkleTreeError::InvalidProof)
     }
 
@@ -259,9 +271,12 @@ impl<H: Hasher> BatchMerkleProof<H> {
         if indexes.len() > MAX_PATHS {
             return Err(MerkleTreeError::TooManyLeafIndexes(MAX_PATHS, indexes.len()));
         }
-        if indexes.len() != self.leaves.len() {
+        if indexes.len() != self.leaves.len() || self.depth as u32 >= usize::BITS {
             return Err(MerkleTreeError::InvalidProof);
         }
+
+        // validate the indexes before doing arithmetic on them
+        let index_map = super::map_indexes(indexes, self.depth as usize)?;
 
         let mut partial_tree_map = BTreeMap::new();
 
@@ -274,7 +289,6 @@ impl<H: Hasher> BatchMerkleProof<H> {
 
         // replace odd indexes, offset, and sort in ascending order
         let original_indexes = indexes;
-        let index_map = super::map_indexes(indexes, self.depth as usize)?;
         let indexes = super::normalize_indexes(indexes);
         if indexes.len() != self.nodes.len() {
             return Err(MerkleTreeError::InvalidProof);
